@@ -123,7 +123,13 @@ def iterfieldselect(source, field, where, complement, missing):
         try:
             v = getv(row)
         except IndexError:
-            v = missing
+            if len(indices) > 1:
+                # compound field, short row: only the cells that are absent
+                # are read as missing
+                v = tuple(row[i] if -len(row) <= i < len(row) else missing
+                          for i in indices)
+            else:
+                v = missing
         if bool(where(v)) != complement:  # XOR
             yield tuple(row)
 
